@@ -199,10 +199,6 @@ fn writer_history_case(case: &mut Case) -> CaseResult {
 
 const KEYWORDS: &[&str] = &["type", "interface", "union", "enum", "input", "scalar", "query", "mutation", "subscription", "fragment", "extend", "schema", "directive"];
 
-fn token_at<'a>(toks: &'a [LTok], line: i64, col: i64) -> Option<&'a LTok> {
-    toks.iter().find(|t| t.line as i64 == line && (t.col as i64 == col || t.col16 as i64 == col) && !matches!(t.t, T::Eof))
-}
-
 /// declared identifiers of a generated TS module with positions: (name, line, col16, kind)
 fn declared_identifiers(stmts: &[Stmt], out: &mut Vec<(String, usize, usize, &'static str)>, in_output_ns: bool) {
     for s in stmts {
@@ -299,28 +295,34 @@ pub fn check_map(
             return Err(fail("segment-into-virtual-source", "a segment refers to the plugin's virtual source, which is no GraphQL input file".to_string()));
         }
         let toks = &inputs[&src_paths[src as usize]];
-        let tok = token_at(toks, ol, oc);
-        let Some(tok) = tok else {
+        // the column unit is not fixed by the statement (characters or UTF-16 units): after an astral character two
+        // neighbouring tokens can both start "at" the column, one in each unit - every reading is tried
+        let cands: Vec<&LTok> = toks.iter().filter(|t| t.line as i64 == ol && (t.col as i64 == oc || t.col16 as i64 == oc) && !matches!(t.t, T::Eof)).collect();
+        if cands.is_empty() {
             return Err(fail("original-not-at-token-start", format!("segment {i}: original {}:{}:{} is not the start of a token", map.sources[src as usize], ol, oc)));
-        };
+        }
         if let Some(ni) = s.name {
             let Some(name) = map.names.get(ni as usize) else {
                 return Err(fail("name-index-out-of-range", format!("segment {i}: name index {ni}")));
             };
-            let tok_text = match &tok.t {
+            let text_of = |tok: &LTok| match &tok.t {
                 T::Name(n) => n.clone(),
                 T::Punct(p) => p.to_string(),
                 _ => tok.raw.clone(),
             };
             // the token itself, or the name of the definition whose keyword is there
-            let ok = &tok_text == name || {
-                KEYWORDS.contains(&tok_text.as_str()) && {
-                    // the definition's name follows within the header
-                    let idx = toks.iter().position(|t| std::ptr::eq(t, tok)).unwrap();
-                    toks[idx + 1..].iter().take(6).any(|t| matches!(&t.t, T::Name(n) if n == name))
+            let ok = cands.iter().any(|tok| {
+                let tok_text = text_of(tok);
+                &tok_text == name || {
+                    KEYWORDS.contains(&tok_text.as_str()) && {
+                        // the definition's name follows within the header
+                        let idx = toks.iter().position(|t| std::ptr::eq(t, *tok)).unwrap();
+                        toks[idx + 1..].iter().take(6).any(|t| matches!(&t.t, T::Name(n) if n == name))
+                    }
                 }
-            };
+            });
             if !ok {
+                let tok_text = text_of(cands[0]);
                 return Err(fail("name-is-not-the-source-identifier", format!("segment {i}: name {name:?} but the token at {}:{} is {tok_text:?}", ol, oc)));
             }
             // closing segment of the named pair
@@ -394,21 +396,24 @@ pub fn check_coverage(
             }
             let abs = norm(&format!("{map_dir}/{}", map.sources[src as usize]));
             let Some(toks) = inputs.get(&abs) else { continue };
-            let tok = token_at(toks, seg.orig_line.unwrap(), seg.orig_col.unwrap());
-            let text = tok.map(|t| match &t.t {
-                T::Name(n) => n.clone(),
-                _ => t.raw.clone(),
+            // (either column unit, see check_map)
+            let (ol, oc) = (seg.orig_line.unwrap(), seg.orig_col.unwrap());
+            let texts: Vec<String> = toks
+                .iter()
+                .filter(|t| t.line as i64 == ol && (t.col as i64 == oc || t.col16 as i64 == oc) && !matches!(t.t, T::Eof))
+                .map(|t| match &t.t {
+                    T::Name(n) => n.clone(),
+                    _ => t.raw.clone(),
+                })
+                .collect();
+            let text = texts.first().cloned();
+            let ok = texts.iter().any(|t| {
+                t == &gql
+                    || KEYWORDS.contains(&t.as_str())
+                    // operation types are named <Name>Result / <Name>Variables / <Name>Query ...: the token is the operation name
+                    || (kind != "field" && gql.to_lowercase().starts_with(&t.to_lowercase()))
+                    || t == "{" // anonymous operations map to their selection set / keyword
             });
-            let ok = match &text {
-                Some(t) => {
-                    t == &gql
-                        || KEYWORDS.contains(&t.as_str())
-                        // operation types are named <Name>Result / <Name>Variables / <Name>Query ...: the token is the operation name
-                        || (kind != "field" && gql.to_lowercase().starts_with(&t.to_lowercase()))
-                        || t == "{" // anonymous operations map to their selection set / keyword
-                }
-                None => false,
-            };
             seen.push(format!("{:?} at {}:{}:{}", text, map.sources[src as usize], seg.orig_line.unwrap(), seg.orig_col.unwrap()));
             if ok {
                 any_ok = true;
